@@ -164,7 +164,7 @@ def judge(ctx, rep, r):
 
 
 def run(ctx, rep):
-    n = ctx.n(64, 2000)
+    n = ctx.n(64, 320)
     cases = [{"seed": f"C29:{ctx.seed}:{i}"} for i in range(n)]
     for r in common.pmap(lambda c: one(ctx, c), cases):
         judge(ctx, rep, r)
